@@ -4,13 +4,14 @@ CONSTANTS
   Methods <- MCMethods
   EntryAlphabet <- EntriesSmall
   TopKinds <- AllTops
-  MaxEntries = 1
+  MaxEntries = 2
   PoolSize = 1
   BatchDisabled = TRUE
   FixNotif = FALSE
   FixNonRequest = FALSE
-INIT Init
-NEXT Next
-VIEW view
+  FixLongWs = FALSE
+  FarChoices = {TRUE, FALSE}
+INIT TableInit
+NEXT TableNext
 INVARIANTS TypeOK PShape POnePerEntry PResponses PTopLevel PInvocations PInFlight
 CHECK_DEADLOCK FALSE
